@@ -213,9 +213,18 @@ JUNK_IDS = ["900", "901", "977", "2000000000"]
 
 @st.composite
 def junk_line(draw, live_ids):
-    k = draw(st.integers(0, 7))
+    k = draw(st.integers(0, 8))
     jid = draw(st.sampled_from(JUNK_IDS))
     anyid = draw(st.sampled_from(JUNK_IDS + [str(i) for i in live_ids] + ["-1"]))
+    if k == 8:
+        # one over-long junk line: a no-op head, a long run of blanks (skipped by the tokenizer) and a tail that
+        # would be a meaningful line of its own if the daemon ever lost track of where the line began
+        head = draw(st.sampled_from(["-1 E", "-1 M", "%s N" % jid, "%s u" % jid, "%s Q" % anyid, "-1 E type"]))
+        lid = draw(st.sampled_from([str(i) for i in live_ids] or ["900"]))
+        tail = draw(st.sampled_from(["%s D" % lid, "%s T" % lid, "%s H" % lid, "%s C 9.9.9.9 9 127.0.0.1 6667" % lid, "%s P :+x! a b" % lid,
+                                     "-1 X alpha.ex %x_1 :NO go away" % int(lid), "%s N other.host" % lid]))
+        fill = draw(st.sampled_from([" ", " ", "\t", " \t"])) * draw(st.sampled_from([600, 4090, 4100, 8190, 8200, 9000, 12300, 16500, 40000]))
+        return head + " " + fill + tail
     if k == 0:   # unknown id, any non-C command
         c = draw(st.sampled_from("DNdPUunHTEMXx?!"))
         return "%s %s%s" % (jid, c, draw(st.sampled_from(["", " a", " a :b c", " a b c d e"])))
@@ -300,8 +309,8 @@ def eval_c08(case, ctx):
         why, arith = crashy(r1)
         if why:
             if r1["hang"]:
-                # re-run twice before calling it a hang
-                again = [run_batch(ctext, data, wd)["hang"] for _ in range(2)]
+                # re-run before calling it a hang (and hyprun.confirm repeats the whole case three times)
+                again = [run_batch(ctext, data, wd)["hang"] for _ in range(1)]
                 if not all(again):
                     res.inconclusive = "hang_not_reproduced"
                     return res
@@ -338,7 +347,7 @@ def eval_c08(case, ctx):
     r2 = run_batch(ctext, mixed, wd, chunks=case["chunks"] or None)
     why, _ = crashy(r2)
     if why:
-        res.violations.append(V("C08", sig_for(why), "stream with junk lines %r: %s" % ([j[1] for j in case["junk"]], "; ".join(why))))
+        res.violations.append(V("C08", sig_for(why), "stream with junk lines %r: %s" % ([j[1][:60] + ("...(%d bytes)" % len(j[1]) if len(j[1]) > 60 else "") for j in case["junk"]], "; ".join(why))))
         return res
     strip = lambda ls: [l for l in mask(ls) if not l.startswith("> :ircd sent garbage")]
     a, b = strip(r1["out"]), strip(r2["out"])
@@ -347,7 +356,7 @@ def eval_c08(case, ctx):
         while j < len(a) and j < len(b) and a[j] == b[j]:
             j += 1
         res.violations.append(V("C08", "junk_changes_behaviour", "junk lines %r change the treatment of well-formed lines: output line %d is %r instead of %r"
-                                % ([j_[1] for j_ in case["junk"]], j, b[j][:120] if j < len(b) else None, a[j][:120] if j < len(a) else None)))
+                                % ([j_[1][:60] + ("...(%d bytes)" % len(j_[1]) if len(j_[1]) > 60 else "") for j_ in case["junk"]], j, b[j][:120] if j < len(b) else None, a[j][:120] if j < len(a) else None)))
     res.nontrivial = True
     res.classes.add("junk_mode")
     return res
